@@ -241,10 +241,15 @@ def judge(family, case, rec):
     pair_list = [(i, j) for i in range(p) for j in range(p)]
     if p > 5:
         pair_list = [pair_list[int(k)] for k in rng.choice(len(pair_list), 12, replace=False)]
+    At = A.T            # the reversed graph as a (Fortran-ordered) view of the same memory: a different, equally valid PDAG
     for (i, j) in pair_list:
         _call(rec, family, case, "na", U.na, i, j, A)
         if p <= 7 or family == "embedded-pdag":
             _call(rec, family, case, "semi_directed_paths", U.semi_directed_paths, i, j, A)
+            if (i + j) % 3 == 0:
+                _call(rec, family, case, "semi_directed_paths", U.semi_directed_paths, i, j, At)
+                _call(rec, family, case, "separates", U.separates, set(), {i}, {j}, At) if i != j else None
+                _call(rec, family, case, "semi_directed_paths", U.semi_directed_paths, i, j, A)
     # transitive closure: defined for DAGs; for graphs with undirected edges ValueError is documented
     if n_und == 0:
         ok, _ = _call(rec, family, case, "transitive_closure", U.transitive_closure, A)
